@@ -54,6 +54,7 @@ type mapEntry struct {
 
 type MapObj struct {
 	ID      int
+	Owner   int
 	Entries []*mapEntry
 	Typ     *types.Map
 }
